@@ -307,6 +307,7 @@ def handleAcc (ws : List String) : String :=
     step   S/<flags>/<perms>/<raises>/<content>/<ok>/<trace>/<raw records>   one save with ITS configuration and observed trace
            E/c<mode>  E/d  E/p<mode>:<hex>  E/u<umask>          the destination is chmod-ed / deleted / replaced by another
                                                                 writer's file, the process umask changes (`C05.EnvStep`)
+           E/P<mode>:<hex>  E/Q                                 a part file appears under the part name / is removed
   Output: one half per step joined by ` | `: a save as in protocol 1 (judged by `C05.Accept` with the umask and the
   destination's permission bits of the state THAT save starts from), an environment step as `env dest=… part=…`. -/
 
@@ -318,6 +319,12 @@ def parseEnvStep? (w : String) : Option EnvStep :=
   | 'p' :: rest => match splitOnChar (String.ofList rest) ':' with
     | [md, hx] => match md.toNat?, bytesOfHex? hx with
       | some md, some b => some (.putDest md b)
+      | _, _ => none
+    | _ => none
+  | ['Q'] => some .unlinkPart
+  | 'P' :: rest => match splitOnChar (String.ofList rest) ':' with
+    | [md, hx] => match md.toNat?, bytesOfHex? hx with
+      | some md, some b => some (.putPart md b)
       | _, _ => none
     | _ => none
   | _ => none
